@@ -273,7 +273,35 @@ func (c *canonCtx) val(v ssa.Value) string {
 		if f != nil {
 			name = f.Name()
 		}
-		return c.base(x.X) + "." + name
+		path := c.base(x.X) + "." + name
+		// a field of a struct value that is (a copy of) a tracked local - e.g. the struct an
+		// inlined helper built and returned by value: the value last stored into that field
+		if c.st != nil && strings.HasPrefix(path, "new@") {
+			if e, ok := c.st.lookupStore(path); ok && e.suffix == "" {
+				for d := range e.ce.Deps {
+					c.deps[d] = true
+				}
+				c.reads = append(c.reads, e.ce.Reads...)
+				return e.ce.S
+			}
+			// never stored on this path: the field still has its zero value
+			if _, found := c.st.lookupStore(path); !found && !c.st.killedAround(path) && rootAllocKnown(c.st, path) {
+				switch t := x.Type().Underlying().(type) {
+				case *types.Basic:
+					switch {
+					case t.Info()&types.IsBoolean != 0:
+						return "false"
+					case t.Info()&types.IsNumeric != 0:
+						return "0"
+					case t.Info()&types.IsString != 0:
+						return `""`
+					}
+				case *types.Pointer, *types.Slice, *types.Map, *types.Interface, *types.Signature, *types.Chan:
+					return "nil"
+				}
+			}
+		}
+		return path
 	case *ssa.Index:
 		return c.base(x.X) + "[" + c.val(x.Index) + "]"
 	case *ssa.UnOp:
@@ -526,6 +554,21 @@ func (ex *Explorer) Resolve(st *State, v ssa.Value) ssa.Value {
 				}
 			}
 			return v
+		case *ssa.Field:
+			if st != nil {
+				c := &canonCtx{ex: ex, st: st, deps: map[ssa.Value]bool{}}
+				f := fieldOf(x.X.Type(), x.Field)
+				if f != nil {
+					path := c.base(x.X) + "." + f.Name()
+					if strings.HasPrefix(path, "new@") {
+						if e, ok := st.lookupStore(path); ok && e.suffix == "" && e.ce.V0 != nil && e.ce.V0 != v {
+							v = e.ce.V0
+							continue
+						}
+					}
+				}
+			}
+			return v
 		case *ssa.FreeVar:
 			if st != nil {
 				if b := st.boundFree(x); b != nil && b != v {
@@ -548,8 +591,8 @@ func (ex *Explorer) Resolve(st *State, v ssa.Value) ssa.Value {
 				c := &canonCtx{ex: ex, st: st, deps: map[ssa.Value]bool{}}
 				p := c.loc(x.X)
 				if strings.HasPrefix(p, "new@") {
-					if e, ok := st.lookupStore(p); ok && e.suffix == "" && e.ce.V != nil {
-						v = e.ce.V
+					if ce, _, _ := st.exactEntry(p); ce != nil && ce.V != nil {
+						v = ce.V
 						continue
 					}
 				}
@@ -670,4 +713,21 @@ func sortedKeys[M ~map[string]V, V any](m M) []string {
 	}
 	sort.Strings(ks)
 	return ks
+}
+
+// rootAllocKnown: some field of the same local struct is tracked in the store
+// map (so the struct is a literal built on this path, and an absent entry
+// means "never assigned", not "unknown").
+func rootAllocKnown(st *State, path string) bool {
+	i := strings.LastIndex(path, ".")
+	if i < 0 {
+		return false
+	}
+	root := path[:i]
+	for k := range st.store {
+		if strings.HasPrefix(k, root+".") || k == root {
+			return true
+		}
+	}
+	return false
 }
